@@ -42,7 +42,11 @@ class Prop(GraphProp):
 
     # ------------------------------------------------------------------ seeded part
     def generate(self, r, tier, idx):
-        w = self.gen_world(r, tier, self.profile)
+        profile = self.profile
+        if r.random() < 0.06:
+            # focus: sparse worlds whose terms mix dense and sparse arrays, with full / selective diagonalisation
+            profile = {**self.profile, "domains": ["sparse"], "force_mixed_fd": True}
+        w = self.gen_world(r, tier, profile)
         ops = self.gen_ops(r, w, tier, self.profile)
         clean = super().execute({"world": w, "ops": ops, "faults": []})
         ticks = {k: v for k, v in clean["op_ticks"].items() if isinstance(k, int) and v > 0}
